@@ -62,6 +62,15 @@ func NewRequestContext(ctx context.Context, req *envoy_auth.CheckRequest) *Reque
 		}
 	}
 
+	// envoy sends the path as received, without decoding it. As with the http based services, the
+	// url exposed to the rules and mechanisms consists of the decoded path and the raw (escaped) path
+	rawPath := req.GetAttributes().GetRequest().GetHttp().GetPath()
+
+	path, err := url.PathUnescape(rawPath)
+	if err != nil {
+		path = rawPath
+	}
+
 	return &RequestContext{
 		ctx:        ctx,
 		ips:        clientIPs,
@@ -70,7 +79,8 @@ func NewRequestContext(ctx context.Context, req *envoy_auth.CheckRequest) *Reque
 		reqURL: &url.URL{
 			Scheme:   req.GetAttributes().GetRequest().GetHttp().GetScheme(),
 			Host:     req.GetAttributes().GetRequest().GetHttp().GetHost(),
-			Path:     req.GetAttributes().GetRequest().GetHttp().GetPath(),
+			Path:     path,
+			RawPath:  rawPath,
 			RawQuery: req.GetAttributes().GetRequest().GetHttp().GetQuery(),
 			Fragment: req.GetAttributes().GetRequest().GetHttp().GetFragment(),
 		},
